@@ -18,6 +18,9 @@ for lg in logs:
         m = re.match(r'== (\S+) -> (\S+)', line)
         if m:
             d, chk = m.groups()
+            if not re.match(re.escape(root.rstrip('/')) + r'/C\d+/m\d+$', d):
+                cur = None
+                continue
             key = d.replace(root.rstrip('/') + '/', '')
             cur = entries.setdefault(key, dict(dir=d, checks=[]))
             cur['checks'].append(dict(check=chk, lines=[]))
